@@ -87,7 +87,7 @@ type Node struct {
 	Idx     int
 	Name    string
 	KeyPair *keystore.KeyPair
-	Keys    *MemKeyStore
+	Keys    keystore.KeyStore // MemKeyStore, or the real LevelDB key store after a crash-restart
 
 	Mem   *MemState           // non-nil when running on the in-memory store
 	LDB   *state.LevelDBState // non-nil when running on LevelDB
@@ -107,6 +107,7 @@ type Node struct {
 	// handles of abandoned instances (after a crash-restart), closed with the world
 	oldLDB  []*state.LevelDBState
 	oldCold []*airgapped.Machine
+	oldKS   []*keystore.LevelDBKeyStore
 
 	Cold     *airgapped.Machine
 	ColdDir  string
@@ -318,7 +319,10 @@ func (n *Node) CloseHandles() {
 			closeDBField(m, "db")
 		}
 	}
-	n.oldLDB, n.oldCold, n.LDB, n.Cold = nil, nil, nil, nil
+	for _, ks := range n.oldKS {
+		closeDBField(ks, "keystoreDb")
+	}
+	n.oldLDB, n.oldCold, n.LDB, n.Cold, n.oldKS = nil, nil, nil, nil, nil
 }
 
 // AbandonCold keeps the old machine handle for teardown and installs a new one.
